@@ -32,14 +32,18 @@ def scanIncludes (text : String) : List String :=
     let pre := "#include \"".toList
     if pre.isPrefixOf cs then some (String.ofList ((cs.drop pre.length).takeWhile (· ≠ '"'))) else none
 
-def exactEnv (mode : String) (dev : Lanes) : DEnv Lanes String where
+def fullStr (K : Lanes) : String := strOfCodes (fullString K)
+def shortStr (K : Lanes) : String := strOfCodes ((fullString K).take 16)
+
+def exactEnv (mode : String) (dev : Lanes) : DEnv Lanes String String where
   H s := hashBytes (bytesOf s)
   enc := dump
-  full K := strOfCodes (fullString K)
-  short K := strOfCodes ((fullString K).take 16)
+  raw := id
+  full K := .str (fullStr K)
+  short K := .str (shortStr K)
   tweak K := if mode = "openmp" then Hash.xor K (hashBytes (bytesOf Gen.openmpSalt)) else K
   dev := dev
-  dir K := strOfCodes ((fullString K).take 16)
+  dir K := shortStr K
   incl := scanIncludes
   depth := 100000
 
@@ -97,12 +101,12 @@ structure DS where
   files : List (String × String) := []
   cache : Cache Lanes String Bin := []
 
-def DS.env (s : DS) : DEnv Lanes String := exactEnv s.mode s.dev
+def DS.env (s : DS) : DEnv Lanes String String := exactEnv s.mode s.dev
 def DS.fs (s : DS) : FS := fun p => s.files.lookup p
 
-def showBin (e : DEnv Lanes String) (x : Bin) : String :=
+def showBin (e : DEnv Lanes String String) (x : Bin) : String :=
   if x.isEmpty then "-" else
-  ",".intercalate (x.map fun pt => hexStr pt.1 ++ ":" ++ e.short (e.H pt.2))
+  ",".intercalate (x.map fun pt => hexStr pt.1 ++ ":" ++ shortStr (e.H pt.2))
 
 def step (s : DS) (toks : List String) : DS × String :=
   match toks with
@@ -113,7 +117,7 @@ def step (s : DS) (toks : List String) : DS × String :=
       | some c =>
         let e := s.env
         ({ s with cfg := c },
-         e.full (baseKey e.toEnv c) ++ " " ++ e.full (modeKey e.toEnv c) ++ " " ++ e.full (headerKey e.toEnv c))
+         fullStr (baseKey e.toEnv c) ++ " " ++ fullStr (modeKey e.toEnv c) ++ " " ++ fullStr (headerKey e.toEnv c))
       | none => (s, "bad-op")
   | "cfg" :: r => match parseCfg r with
       | some c => ({ s with cfg := c }, "ok")
@@ -127,7 +131,7 @@ def step (s : DS) (toks : List String) : DS × String :=
   | ["build"] =>
       let e := s.env
       let r := build e (fun _ x => x) s.fs s.cache s.cfg
-      let key := match r.2.2 with | some K => e.full K | none => "-"
+      let key := match r.2.2 with | some K => fullStr K | none => "-"
       let o := match r.2.1 with
         | .hit b => "hit key=" ++ key ++ " x=" ++ showBin e b
         | .miss b => "miss key=" ++ key ++ " x=" ++ showBin e b
